@@ -294,7 +294,8 @@ Section Vdb.
     assert (T : forall n, ~ vis (tmpdir loc cat pf ++ [n])) by (intro n; apply under_tmp_invisible).
     destruct it as [n ch|ch]; cbn [item_ops].
     - constructor; [now apply open_w_out|now apply put_out].
-    - constructor; [now apply open_w_out|]. apply Forall_app. split; [now apply put_out|].
+    - constructor; [now apply open_w_out|]. constructor; [cbn; auto|]. constructor; [cbn; auto|].
+      apply Forall_app. split; [now apply put_out|].
       repeat constructor; cbn; auto.
       intros r [H|H]; apply is_prefix_true in H as [r' ->]; rewrite <- app_assoc; apply under_tmp_invisible.
   Qed.
@@ -340,10 +341,10 @@ Section Vdb.
   (* uninstall: consistent before rmtree starts and once it has finished *)
   Theorem vdb_uninstall_partial_proof s cat old tree :
     nolinks s ->
-    vdb_consistent_outside loc 1 (1 + length (rmtree_ops (pkgdir loc cat old) tree))
+    vdb_consistent_outside loc 1 (uninstall_hi loc cat old tree)
                            (vdb_uninstall_ops s loc cat old tree) s.
   Proof.
-    intro Hn. unfold vdb_uninstall_ops, vdb_unmerge.
+    intro Hn. unfold vdb_uninstall_ops, vdb_unmerge, uninstall_hi.
     set (R := rmtree_ops (pkgdir loc cat old) tree).
     set (E := rmdir_if_empty _ _).
     replace (([Utime loc NOW] ++ R ++ [Utime loc NOW]) ++ E)
@@ -355,13 +356,9 @@ Section Vdb.
   Qed.
 
   (* replace: consistent until rmtree(old) starts and from the rename of the new directory on *)
-  Definition replace_lo (s : fs) (cat pf : str) (items : list item) : nat :=
-    length (vdb_stage s loc cat pf items) + 1.
-  Definition replace_hi (s : fs) (cat old pf : str) (tree : list rt) (items : list item) : nat :=
-    replace_lo s cat pf items + (length (rmtree_ops (pkgdir loc cat old) tree) + 2).
   Theorem vdb_replace_partial_proof s cat old pf tree items :
     nolinks s ->
-    vdb_consistent_outside loc (replace_lo s cat pf items) (replace_hi s cat old pf tree items)
+    vdb_consistent_outside loc (replace_lo loc s cat pf items) (replace_hi loc s cat old pf tree items)
                            (vdb_replace_ops s loc cat old pf tree items) s.
   Proof.
     intro Hn. unfold vdb_replace_ops, vdb_unmerge, vdb_commit, replace_hi, replace_lo.
@@ -494,8 +491,8 @@ Example ex_replace_final :
   = VL [VL [VS Ex.c; VS Ex.p2; VL [VNone; VS [49%N]; VNone; VNone; VNone; VNone; VNone; VNone; VS [100; 10]%N; VNone; VNone]]].
 Proof. vm_compute. reflexivity. Qed.
 Example ex_replace_window :
-  Proofs_C29.replace_lo [Ex.v] Ex.s0 Ex.c Ex.p2 Ex.items = 10
-  /\ Proofs_C29.replace_hi [Ex.v] Ex.s0 Ex.c Ex.p1 Ex.p2 Ex.tree Ex.items = 15.
+  replace_lo [Ex.v] Ex.s0 Ex.c Ex.p2 Ex.items = 10
+  /\ replace_hi [Ex.v] Ex.s0 Ex.c Ex.p1 Ex.p2 Ex.tree Ex.items = 15.
 Proof. vm_compute. split; reflexivity. Qed.
 
 (* crash point 11 of the example replace: inside rmtree(old) — the old package is still listed
